@@ -11,7 +11,8 @@ Case (driver "uploads"):
    "trace": [["R"] | ["o", ACTION, dir] | ["f", ACTION, dir] | ["c", who]],
    "reply": "ok" | {"rejected": 5xx code},           optional (default "ok"): what R carries
    "refuse": null | "crlf" | "v3-rsa",               optional, ephemeral kinds: a key txtorcon itself refuses
-   "app_listener": bool}                             optional: the application has its own HS_DESC listener
+   "app_listener": bool,                             optional: the application has its own HS_DESC listener
+   "fv": 2 | 3}                                      optional: address version of the foreign service (default: ours)
      R = the ADD_ONION / SETCONF reply arrives;  o = HS_DESC event of the service itself,
      f = of a second (foreign) service, ACTION in UPLOAD/UPLOADED/FAILED, dir = directory index
      (equal indices = the same HSDir);  c = an HS_DESC CREATED event (noise Tor also sends).
@@ -48,7 +49,8 @@ PROPERTY = "C15"
 FAILED_REASONS = ["UPLOAD_REJECTED", "UNEXPECTED", "UPLOAD_REJECTED", "UNEXPECTED", "UPLOAD_REJECTED", None]
 LEVEL = "exploration"
 RULE = ("Histories of HS_DESC UPLOAD/UPLOADED/FAILED events over 1..4 directories of the created service "
-        "interleaved with events of a foreign service on partly shared directories (UPLOAD precedes its outcome), "
+        "interleaved with events of a foreign service (same or other address version) on partly shared directories "
+        "(UPLOAD precedes its outcome), "
         "the ADD_ONION/SETCONF reply placed before/between/after them (own events of an ADD_ONION service may "
         "overtake the reply: judged against the 'counted' and the 'unrecorded' reading), both waiting modes, for "
         "EphemeralOnionService / EphemeralAuthenticatedOnionService / FilesystemOnionService / "
@@ -56,7 +58,8 @@ RULE = ("Histories of HS_DESC UPLOAD/UPLOADED/FAILED events over 1..4 directorie
         "create() Deferred is compared with a reference completion model, at the end with the subscription "
         "state. The creating command's reply is 250 or a 5xx rejection (512/513/550/551/552/553), or txtorcon "
         "refuses the key itself (CR/LF blob, RSA key with version 3; no command sent): then the service never "
-        "exists, only foreign events flow, create() must fail exactly when the rejection arrives with Tor's "
+        "exists, only foreign events flow (for kinds whose address is known in advance events of that address "
+        "may flow too, also settling the wait before the rejection), create() must fail exactly when the rejection arrives with Tor's "
         "error (ValueError for a refused key), and afterwards only an application-owned HS_DESC listener (present "
         "in part of the cases, also on the success paths) may be left. "
         "Hypothesis draws traces; thorough enumerates every causal interleaving within stated bounds. "
@@ -73,6 +76,8 @@ ASSUMPTIONS = [
     "SETEVENTS is answered at once by the server; the subscription is judged when the trace has been fully delivered",
     "events use modern Tor's format (real address in UPLOADED); HSDir names are $FINGERPRINT~nick",
     "the progress callback's values are recorded (labels) but not judged: the statement does not constrain them and txtorcon's old-Tor path deliberately reports 102..106",
+    "when the command is rejected and the address is known in advance (filesystem kinds: hostname file; auth with a supplied key) events carrying that address may still flow - the address may belong to a service that already runs (re-sent HiddenServiceDir block, 550 collision) - at any position, also settling the wait before the rejection arrives; create() still stays pending until the rejection and then fails with Tor's error; the subscription is judged by the last SETEVENTS the server actually received and by the listener table",
+    "the foreign service may be of the other address version (v2 next to v3 and vice versa): it is still a foreign service",
     "rejection texts are short ASCII; the codes are the ones Tor uses for ADD_ONION/SETCONF (512, 513, 550, 551, 552, 553)",
     "Tor reports a version >= 0.2.7.2 (older ones have no usable HS_DESC and txtorcon documents that it then declares success at once)",
     "a discrepancy that disappears when the foreign service's UPLOADED events on directories the own service is uploading to are removed from the history is attributed to the known finding 'UPLOADED matched by directory only'; everything else keeps its own tag",
@@ -90,7 +95,10 @@ KNOWN_FOREIGN = "foreign-uploaded-on-shared-dir-counts"
 def interpret(case):
     """Drop steps a causal Tor cannot produce; returns (steps, skipped_count)."""
     eph = case["kind"] in ("ephemeral", "auth")
-    never = never_exists(case)          # rejected / refused: the service never exists, no own events
+    # rejected / refused: the service is not created, so no own events - unless its address is known in
+    # advance and the command was rejected: then the address may belong to a service that already runs
+    # (re-sent HiddenServiceDir block, 550 collision for a supplied key) and its events do flow
+    never = never_exists(case) and not (rejected_code(case) is not None and address_known(case))
     refused = bool(case.get("refuse"))
     seen_up = set()
     seen_out = set()
@@ -138,6 +146,11 @@ def rejected_code(case):
     return r["rejected"] if isinstance(r, dict) else None
 
 
+def address_known(case):
+    """kinds whose onion address txtorcon can know before Tor answered (hostname file / supplied RSA key)"""
+    return case["kind"] in ("fs", "fsauth") or (case["kind"] == "auth" and case["key"] == "supplied")
+
+
 def never_exists(case):
     return rejected_code(case) is not None or bool(case.get("refuse"))
 
@@ -166,6 +179,7 @@ class _Obs(object):
         self.pre_reply_own = 0      # own events of an ADD_ONION service delivered before the reply
         self.pre_outcome_after_reply = False
         self.vs = "counted"
+        self.settled_before_rejection = None
         self.alive = None
         self.failed_at = None       # never-exists class: step index at which create() must have failed (-1 = at once)
 
@@ -184,9 +198,11 @@ def _execute(case, steps):
     if kind in ("auth", "fsauth"):
         own = rsa_sid
         foreign = onionref.RSA_KEYS[(n + 1) % len(onionref.RSA_KEYS)][0]
+        if case.get("fv") == 3:
+            foreign = onionref.service_id(3, n + 1000)
     else:
         own = onionref.service_id(version, n)
-        foreign = onionref.service_id(version, n + 1000)
+        foreign = onionref.service_id(case.get("fv") or version, n + 1000)
 
     tor = onionref.OnionTor()          # ADD_ONION and SETCONF are held until the "R" step
     reactor = onionref.FakePortReactor([40000 + i for i in range(4)])
@@ -279,33 +295,37 @@ def _execute(case, steps):
                 return ob
 
             replied = False
+            fver = case.get("fv") or version
             for i, s in enumerate(steps):
                 if s[0] == "R":
                     replied = True
-                    tor.reply(reply)
                     if code is not None:
                         ob.failed_at = i
+                        ob.settled_before_rejection = ref.decision
+                    tor.reply(reply)
                 elif s[0] == "c":
                     addr = own if s[1] == "o" else foreign
-                    tor.event(onionref.hs_desc("CREATED", addr, "UNKNOWN", descid=onionref.desc_id(version, 7),
-                                               extra="REPLICA=0" if version == 2 else None))
+                    ver = version if s[1] == "o" else fver
+                    tor.event(onionref.hs_desc("CREATED", addr, "UNKNOWN", descid=onionref.desc_id(ver, 7),
+                                               extra="REPLICA=0" if ver == 2 else None))
                 else:
                     is_own = s[0] == "o"
                     act, dnum = s[1], s[2]
                     addr = own if is_own else foreign
+                    ver = version if is_own else fver
                     hsd = onionref.hsdir_name(dnum)
                     if not is_own and act == "UPLOADED" and hsd in ref.attempted and ref.decision is None:
                         ob.taints.append(i)
                     if act == "UPLOAD":
-                        ev = onionref.hs_desc("UPLOAD", addr, hsd, descid=onionref.desc_id(version, dnum),
-                                              extra=("HSDIR_INDEX=" + onionref.desc_id(3, 50 + dnum)) if version == 3 else None)
+                        ev = onionref.hs_desc("UPLOAD", addr, hsd, descid=onionref.desc_id(ver, dnum),
+                                              extra=("HSDIR_INDEX=" + onionref.desc_id(3, 50 + dnum)) if ver == 3 else None)
                     elif act == "UPLOADED":
                         ev = onionref.hs_desc("UPLOADED", addr, hsd)
                     else:
                         # control-spec lists several REASON values for HS_DESC FAILED; for uploads tor uses
                         # UPLOAD_REJECTED or UNEXPECTED.  Derived from the case (directory, step) - no extra draw
                         reason = FAILED_REASONS[(dnum * 7 + i + case.get("n", 0)) % len(FAILED_REASONS)]
-                        ev = onionref.hs_desc("FAILED", addr, hsd, descid=onionref.desc_id(version, dnum),
+                        ev = onionref.hs_desc("FAILED", addr, hsd, descid=onionref.desc_id(ver, dnum),
                                               reason=reason)
                     ref.feed(is_own, act, hsd)
                     if is_own and eph and not replied:
@@ -459,6 +479,10 @@ def drive_uploads(case):
             res.label("events-after-rejection")
         if ob.failed_at >= 1:
             res.label("events-before-rejection")
+        if own_dirs:
+            res.label("rejected+events-of-the-same-address")
+        if ob.settled_before_rejection:
+            res.label("rejected-after-wait-settled:" + ob.settled_before_rejection)
     if case.get("app_listener"):
         res.label("app-listener" + ("+never-exists" if never else ""))
     res.label("kind:" + kind, "v%d" % version, "mode:" + ("all" if await_all else "one"),
@@ -467,6 +491,10 @@ def drive_uploads(case):
         res.label("key:" + case["key"])
     if own_dirs & for_dirs:
         res.label("shared-dir")
+    if for_dirs and (case.get("fv") or version) != version:
+        res.label("foreign-service-of-other-version")
+        if own_dirs & for_dirs:
+            res.label("foreign-other-version+shared-dir")
     if ob.taints:
         res.label("foreign-UPLOADED-on-own-attempted-dir")
     if ob.pre_reply_own:
@@ -549,7 +577,11 @@ def cases(draw):
     outcome = draw(st.sampled_from(["ok", "ok", "ok", "ok", "ok", "rejected", "rejected", "refused"]))
     if outcome != "ok":
         # the service never exists: only the foreign service's events (and noise) remain, R anywhere
-        trace = [s_ for s_ in trace if s_[0] == "f" or s_ == ["c", "f"]]
+        keep_own = outcome == "rejected" and address_known(case) and draw(st.booleans())
+        if not keep_own:
+            trace = [s_ for s_ in trace if s_[0] == "f" or s_ == ["c", "f"]]
+        else:
+            trace = [s_ for s_ in trace if s_ != ["R"]]
         if outcome == "refused" and kind in ("ephemeral", "auth"):
             case["refuse"] = draw(st.sampled_from(["crlf", "v3-rsa"] if kind == "ephemeral" else ["crlf"]))
             if case["refuse"] == "v3-rsa":
@@ -560,6 +592,8 @@ def cases(draw):
         case["trace"] = trace
     if draw(st.integers(0, 5)) == 0 or (outcome != "ok" and draw(st.booleans())):
         case["app_listener"] = True
+    if draw(st.integers(0, 2)) == 0:
+        case["fv"] = 5 - case["version"]      # the foreign service is of the other address version
     return case
 
 
@@ -620,7 +654,10 @@ def mixed_cases(own_dirs, foreign_dirs, kinds):
                         pos = i if k % 2 else 0
                     else:
                         pos = 0
-                    yield _mk(kind, version, key, mode, k % 3, tr[:pos] + [["R"]] + tr[pos:])
+                    c = _mk(kind, version, key, mode, k % 3, tr[:pos] + [["R"]] + tr[pos:])
+                    if (k // 2) % 3 == 0:
+                        c["fv"] = 5 - version
+                    yield c
 
 
 def reply_placement_cases():
@@ -640,7 +677,10 @@ def reply_placement_cases():
                             last = first_own if kind in ("ephemeral", "auth") else len(tr)
                             for pos in range(0, last + 1):
                                 k += 1
-                                yield _mk(kind, version, key, mode, k % 3, tr[:pos] + [["R"]] + tr[pos:])
+                                c = _mk(kind, version, key, mode, k % 3, tr[:pos] + [["R"]] + tr[pos:])
+                                if k % 4 == 0:
+                                    c["fv"] = 5 - version
+                                yield c
 
 
 def pre_reply_cases(ndirs):
@@ -657,6 +697,25 @@ def pre_reply_cases(ndirs):
                 if k % 29 == 0:
                     kind, version, key = [("auth", 2, "none"), ("auth", 2, "supplied"), ("auth", 2, "discard")][(k // 29) % 3]
                 yield _mk(kind, version, key, mode, k % 3, tr[:pos] + [["R"]] + tr[pos:])
+
+
+def rejected_after_events_cases():
+    """kinds whose address is known in advance: every causal order of the address's events over 1-2
+    directories x every position of the REJECTED reply (also after the events settled the wait)."""
+    kinds = [("fs", 3, "none"), ("fs", 2, "none"), ("fs", 3, "none"), ("fsauth", 2, "none"), ("fs", 2, "none"),
+             ("auth", 2, "supplied")]
+    k = 0
+    for mode in (False, True):
+        for dirs in ([0], [0, 1]):
+            for tr in _service_orders("o", dirs):
+                for pos in range(len(tr) + 1):
+                    for rot in range(2):
+                        k += 1
+                        kind, version, key = kinds[k % len(kinds)]
+                        c = _mk(kind, version, key, mode, k % 3, tr[:pos] + [["R"]] + tr[pos:])
+                        c["reply"] = {"rejected": REJECT_CODES[k % len(REJECT_CODES)]}
+                        c["app_listener"] = k % 5 == 0
+                        yield c
 
 
 def never_exists_cases():
@@ -725,11 +784,14 @@ def run(ctx):
         ctx.enumerate("uploads", pre_reply_cases(2), name="own-events-overtake-reply-2dirs")
         ctx.enumerate("uploads", itertools.islice(pre_reply_cases(3), 0, None, 23),
                       name="own-events-overtake-reply-3dirs-sample", exhaustive=False)
+        ctx.enumerate("uploads", itertools.islice(rejected_after_events_cases(), 0, None, 3),
+                      name="rejected-after-own-address-events-sample", exhaustive=False)
         ctx.enumerate("uploads", itertools.islice(never_exists_cases(), 0, None, 7),
                       name="never-exists-sample", exhaustive=False)
         ctx.search("uploads", cases(), quick=700)
     else:
         ctx.enumerate("uploads", never_exists_cases(), name="rejected-or-refused-every-reply-position")
+        ctx.enumerate("uploads", rejected_after_events_cases(), name="rejected-after-own-address-events")
         ctx.enumerate("uploads", pre_reply_cases(2), name="own-events-overtake-reply-2dirs")
         ctx.enumerate("uploads", pre_reply_cases(3), name="own-events-overtake-reply-3dirs")
         ctx.enumerate("uploads", own_only_cases(1, ALL_KINDS), name="own-1dir-all-orders")
@@ -766,6 +828,14 @@ MUTANTS = [
     ("failed-counts-unrecorded-dir", "txtorcon/onion.py",
      "            if args[3] in attempted_uploads and hostname_matches('{}.onion'.format(args[1])):",
      "            if hostname_matches('{}.onion'.format(args[1])):"),
+    ("uploaded-address-check-own-version-only", "txtorcon/onion.py",
+     "        if re.match('^([a-z2-7]{16}|[a-z2-7]{56})$', address):",
+     "        if re.match('^[a-z2-7]{%d}$' % (16 if onion.version == 2 else 56), address):"),
+    # --- the unsubscribing SETEVENTS is queued behind the unanswered creating command, which is then rejected
+    ("cancelled-queued-command-never-sent", "txtorcon/torcontrolprotocol.py",
+     "            (d, cmd, cmd_arg) = self.command\n\n",
+     "            (d, cmd, cmd_arg) = self.command\n\n"
+     "            if d.called:\n                self.command = None\n                return self._maybe_issue_command()\n\n"),
     ("all-mode-off-by-one", "txtorcon/onion.py",
      "                        if (len(failed_uploads) + len(confirmed_uploads)) == len(attempted_uploads):",
      "                        if (len(failed_uploads) + len(confirmed_uploads)) >= len(attempted_uploads) - 1:"),
